@@ -111,6 +111,7 @@ func (f *Frame) execCall(st *State, x *ssa.Call) Value {
 			}
 			return f.contractCall(st, x, c, nil, args, ptypes, sig.Results(), cc.Method.Name())
 		}
+		f.callAsserts(st, x, cc.Method.Name())
 		vc.havocAll(st, "interface method call "+cc.Method.Name()+" without contract in "+f.fn.Name())
 		return fresh()
 	}
@@ -140,6 +141,20 @@ func (f *Frame) execCall(st *State, x *ssa.Call) Value {
 		}
 		vc.havocAll(st, "call to "+key+" (no contract) in "+f.fn.Name())
 		return fresh()
+	}
+	// a value of a named function type that has a contract
+	if nt, ok := cc.Value.Type().(*types.Named); ok {
+		if ftc := vc.CS.Funcs["functype:"+pkgShort(nt.Obj().Pkg())+"."+nt.Obj().Name()]; ftc != nil {
+			sig := nt.Underlying().(*types.Signature)
+			args := make([]Value, len(cc.Args))
+			var ptypes []types.Type
+			for i, a := range cc.Args {
+				args[i] = f.lookup(st, a)
+				ptypes = append(ptypes, sig.Params().At(i).Type())
+			}
+			vc.note("function values of type %s are assumed to satisfy its functype contract (the literals in this module are verified against it)", nt.Obj().Name())
+			return f.contractCall(st, x, ftc, nil, args, ptypes, sig.Results(), nt.Obj().Name())
+		}
 	}
 	// call through a function value: if the value was loaded from a struct field the
 	// call is recorded in a ghost log (ncalls / callarg spec functions)
@@ -306,6 +321,27 @@ func (vc *VC) assumeNonNil(r Value, t types.Type) {
 	}
 }
 
+// callAsserts: obligations the caller's contract states for this call site.
+func (f *Frame) callAsserts(st *State, x *ssa.Call, name string) {
+	if f.c == nil || !f.top {
+		return
+	}
+	for _, ca := range f.c.CallAsserts[name] {
+		if len(ca.Props) > 0 && f.vc.prop != "" && !clauseHasProp(ca, f.c, f.vc.prop) {
+			continue
+		}
+		actx := f.newCtx(st, f.entry)
+		actx.at = x.Block()
+		actx.atEnd = true
+		g, err := actx.evalBoolSafe(ca.E)
+		if err != nil {
+			f.oblige(st, "call-assert", name, "call-site assertion cannot be evaluated: "+err.Error(), x.Pos(), f.vc.B.False(), ca)
+			continue
+		}
+		f.oblige(st, "call-assert", name, "at the call to "+name+": "+ca.Text, x.Pos(), g, ca)
+	}
+}
+
 // inlineCall executes the callee body in place (only for contracts marked inline).
 func (f *Frame) inlineCall(st *State, x *ssa.Call, callee *ssa.Function, c *Contract, args []Value) (Value, bool) {
 	vc := f.vc
@@ -371,6 +407,7 @@ func (f *Frame) contractCall(st *State, x *ssa.Call, c *Contract, callee *ssa.Fu
 		ctx.names[l.Name] = ctx.evalLet(l)
 	}
 	if f.c != nil && f.top {
+		f.callAsserts(st, x, name)
 		for _, ca := range f.c.CallAssumes[name] {
 			actx := f.newCtx(st, f.entry)
 			actx.at = x.Block()
